@@ -49,6 +49,38 @@ def gen_insphere(rng, tier):
     for _ in range(n_rand):
         pts = [tuple(rng.below(TOP) for _ in range(3)) for _ in range(5)]
         cases.append(("random52", pts))
+    # co-spherical sets with full-precision coordinates: small lattice points on a sphere, rotated and
+    # scaled by an integer matrix M with M^T M = k I (from a random integer quaternion), translated into
+    # the grid; exactly on the sphere, and one coordinate moved by +-1 (nearly co-spherical, 52 bits)
+    n_q = 30000 if tier == "quick" else 300000
+    made = 0
+    while made < n_q:
+        qa, qb, qc, qd = (rng.range(-(1 << 22), 1 << 22) for _ in range(4))
+        M = [[qa * qa + qb * qb - qc * qc - qd * qd, 2 * (qb * qc - qa * qd), 2 * (qb * qd + qa * qc)],
+             [2 * (qb * qc + qa * qd), qa * qa - qb * qb + qc * qc - qd * qd, 2 * (qc * qd - qa * qb)],
+             [2 * (qb * qd - qa * qc), 2 * (qc * qd + qa * qb), qa * qa - qb * qb - qc * qc + qd * qd]]
+        p, q, r = rng.range(0, 5), rng.range(0, 5), rng.range(1, 5)
+        sp = sphere_points(p, q, r)
+        if len(sp) < 5:
+            continue
+        rot = [tuple(sum(M[i][k] * u[k] for k in range(3)) for i in range(3)) for u in sp]
+        ext = max(abs(x) for v in rot for x in v)
+        if ext == 0 or 2 * ext + 2 >= TOP:
+            continue
+        ctr = tuple(rng.range(ext + 1, TOP - 2 - ext) for _ in range(3))
+        idx = list(range(len(rot)))
+        rng.shuffle(idx)
+        pts = [tuple(ctr[k] + rot[i][k] for k in range(3)) for i in idx[:5]]
+        fam = "cospherical-rotated"
+        if rng.chance(0.8):
+            j = rng.below(5)
+            k = rng.below(3)
+            pl = list(pts[j])
+            pl[k] += rng.choice([-1, 1])
+            pts[j] = tuple(pl)
+            fam = "cospherical-rotated+-1"
+        cases.append((fam, pts))
+        made += 1
     n_adv = 3000 if tier == "quick" else 30000
     for _ in range(n_adv):
         kind = rng.below(6)
@@ -218,7 +250,7 @@ def run(res, replay=None):
                 res.violation("insphere:wrong-sign", f"in_sphere_test_exact={r} but sign of the lifted determinant is {spec} on {pts}",
                               {"points": pts, "impl": r, "spec": spec, "build": tag})
             if tag == "debug" and (r != 0 or fam.startswith("cospherical")):
-                res.nontriv(("is", tuple(pts)))
+                res.nontriv(hash(tuple(pts)))
         for ln, (k, off, ai) in sweep_lines.items():
             o = impl.get(ln)
             m = model.get(ln)
